@@ -451,6 +451,17 @@ func checkC10(c CaseC10, info *Info) *Failure {
 	}
 	path := strings.Join(c.Steps, ".")
 	sp := specs(c.Conds, sep)
+	if len(sp) > 0 && len(path)%2 == 0 {
+		// the very same argument strings were parsed a moment ago while ANOTHER separator was in force (on a scratch copy)
+		other := "|"
+		if sep == "|" {
+			other = "#"
+		}
+		mxj.SetFieldSeparator(other)
+		mxj.Map(copyMap(c.Map)).UpdateValuesForPath(map[string]interface{}{c.Key: "x"}, path, sp...)
+		mxj.Map(copyMap(c.Map)).ValuesForPath(path, sp...)
+		mxj.SetFieldSeparator(sep)
+	}
 	if c.PreKey != "" && len(c.PreSteps) > 0 {
 		// first call of the history, run on the subject itself so that whatever it shares stays shared
 		first := copyMap(c.Map)
